@@ -22,6 +22,7 @@ Decided clauses (DESIGN §4 C02):
   R2.10 secretstream header: after init_pull / init_push the state's key is HChaCha20 over header[0..16) and its inonce is a verbatim
        copy of header[16..24) (byte provenance, C09 R9.6), so no header byte is outside what authenticates the chunks.
   R2.11 (E11) the length block of the portable AEGIS backends carries every bit of mlen and adlen (softaes_block_load64x2 drops none).
+  R2.12 the secretstream MAC covers the caller's AD length (C09 R9.5 under the AD-alteration clause).
 NOT decided: that a changed bit changes the recomputed tag (MAC arithmetic).
 """
 import re
@@ -258,6 +259,20 @@ def run(ctx, chk):
         def floor(self, rule, *a, **kw):
             return self._c.floor("R2.11/" + rule, *a, **kw)
     c10.softaes_rule(ctx, prog, _Renamed11(chk))
+    # R2.12: "extending / truncating the associated data makes the call fail": the secretstream MAC covers the caller's adlen
+    # (C09's R9.5 engine; with a rounded-up length X and X || 00 authenticate alike)
+
+    class _Renamed12(_Renamed):
+        def ob(self, rule, *a, **kw):
+            if "key" in kw and kw["key"]:
+                kw["key"] = "R2.12/" + kw["key"]
+            return self._c.ob("R2.12/" + rule, *a, **kw)
+
+        def floor(self, rule, *a, **kw):
+            return self._c.floor("R2.12/" + rule, *a, **kw)
+    c09.length_block_rule(prog, _Renamed12(chk),
+                          inline.inlined(prog, prog.need("crypto_secretstream_xchacha20poly1305_push", rule="R2.12")),
+                          inline.inlined(prog, prog.need("crypto_secretstream_xchacha20poly1305_pull", rule="R2.12")))
     from .. import loopinv
     loopinv.stuck_read_rule(prog, chk, "R2.8", ("crypto_aead/", "crypto_onetimeauth/", "crypto_auth/", "crypto_secretbox/",
                                                 "crypto_box/", "crypto_secretstream/"), floor=20 if prog.config == "native" else 5)
